@@ -2,7 +2,7 @@
    witnesses for the sharing that the current code still has. *)
 From Coq Require Import ZArith List Bool Lia.
 Import ListNotations.
-Require Import PyBase Heap HeapFacts HeapFrame HeapCopy HeapHistory HeapSim HeapOps.
+Require Import PyBase Heap HeapFacts HeapFrame HeapCopy HeapHistory HeapSim HeapOps HeapLinkerSim HeapProtect HeapLinkerCopySim.
 Open Scope Z_scope.
 
 Fixpoint nodupb (l : list Z) : bool := match l with [] => true | x :: r => negb (zmem x r) && nodupb r end.
@@ -120,9 +120,10 @@ Proof.
   vm_compute. split; [reflexivity | intros E; discriminate E].
 Qed.
 
-(* ---- kept finding (the copy is MORE separated than the original): after a traced solve with TRACE_VARIABLES = None the
-   Trace's `names` IS the model's `names` list; copy() deep-copies entry by entry, so in the copy they are two lists.
-   The same later operation (add_variable) then shows on the original's Trace but not on the copy's *)
+(* ---- a stronger reading of "observationally equal" (equal under every LATER operation too) is refuted — the copy is MORE
+   separated than the original: after a traced solve with TRACE_VARIABLES = None the Trace's `names` IS the model's `names`
+   list (C17's finding); copy() deep-copies entry by entry, so in the copy they are two lists.  The same later operation
+   (add_variable) then shows on the original's Trace but not on the copy's.  Equality at copy time (what C11 states) holds. *)
 Definition s_al : state :=
   run_hevents K0 (run_events K0 (s0 1 None) [EInit 0 (args range_span)]) [HOps 1 [OTraceT 1 501 TMNames false]].
 
@@ -135,8 +136,9 @@ Theorem copy_unshares_internal_alias_refuted :
   nth 2 (root_views s2 6) CCut <> nth 1 (root_views s2 6) CCut.
 Proof. vm_compute. split; [reflexivity | intros E; discriminate E]. Qed.
 
-(* ---- kept finding: the class NAMES list was extended after `a` was created; a.copy() runs __init__ of the CURRENT class and
-   keeps the extra series (the copy has a cell the original lacks): the hypothesis of copy_sim about fresh keys is needed *)
+(* ---- the hypothesis of copy_sim about fresh keys is needed: the class NAMES list was extended after `a` was created; a.copy()
+   runs __init__ of the CURRENT class and keeps the extra series as an orphan __dict__ entry (not listed in `index`, so no public
+   accessor shows it; the oracle compares the observable state) *)
 Theorem copy_after_class_mutation_has_extra_cell :
   let s := run_events K0 (s0 0 None) [EInit 0 (args range_span)] in
   let sm := run_hevents K0 s [HOps 0 [OListAppend C_NAMES 209]] in
@@ -219,3 +221,77 @@ Proof. split; [apply roots_okb_sound; vm_compute; reflexivity | vm_compute; refl
 (* the excluded operation is exactly the kept finding *)
 Example ex_leak_op_not_ok : forallb op_ok leak_ops = false.
 Proof. reflexivity. Qed.
+
+(* ---- the hypothesis of copy_submodels_sim is decidable, and holds for the two submodels of the linker above *)
+Fixpoint submodels_copyable_seqb (K : consts) (h : heap) (cs : list (Z * val)) : bool :=
+  match cs with
+  | [] => true
+  | (k, VR l) :: r =>
+    match nth_error h l with
+    | Some o =>
+      nodupb (map fst (ocells o)) && forallb (fun x => zmem x (map fst (ocells o))) (copy_fresh_keys K h l) &&
+      match copy_M K h l with Some (h1, _) => submodels_copyable_seqb K h1 r | None => true end
+    | None => false
+    end
+  | (_, VS _) :: _ => true
+  end.
+
+Lemma submodels_copyable_seqb_sound K : forall cs h, submodels_copyable_seqb K h cs = true -> submodels_copyable_seq K h cs.
+Proof.
+  induction cs as [|[k [z|l]] r IH]; intros h H; cbn [submodels_copyable_seqb submodels_copyable_seq] in *; auto.
+  destruct (nth_error h l) as [o|] eqn:E; [|discriminate].
+  apply andb_true_iff in H as [H H3]. apply andb_true_iff in H as [H1 H2]. split.
+  - exists o. split; [reflexivity|]. split; [apply nodupb_sound; exact H1 | apply subsetb_sound; exact H2].
+  - intros h1 l' Cp. rewrite Cp in H3. apply IH. exact H3.
+Qed.
+
+Definition lk_dict_cells : list (Z * val) :=
+  match nth_error (sroots s_lk) 4 with
+  | Some r => match nth_error (sh s_lk) r with
+              | Some o => match cell_get (A N_submodels) (ocells o) with
+                          | Some (VR d) => match nth_error (sh s_lk) d with Some od => ocells od | None => [] end
+                          | _ => [] end
+              | None => [] end
+  | None => []
+  end.
+
+Example ex_linker_submodels_copyable :
+  length lk_dict_cells = 2%nat /\ wf (sh s_lk) /\ submodels_copyable_seq K0 (sh s_lk) lk_dict_cells /\
+  exists h' cs', copy_submodels K0 (sh s_lk) lk_dict_cells = Some (h', cs').
+Proof.
+  split; [vm_compute; reflexivity|]. split; [apply wfb_sound; vm_compute; reflexivity|].
+  split; [apply submodels_copyable_seqb_sound; vm_compute; reflexivity|].
+  destruct (copy_submodels K0 (sh s_lk) lk_dict_cells) as [[h' cs']|] eqn:E; [eauto | vm_compute in E; discriminate].
+Qed.
+
+(* ---- hypotheses of linker_copy_sim are satisfiable: the linker of s_lk (root 4, two submodels) *)
+Definition lk_root : loc := nth 4 (sroots s_lk) O.
+Definition lk_dict : loc :=
+  match nth_error (sh s_lk) lk_root with
+  | Some o => match cell_get KP (ocells o) with Some (VR d) => d | _ => O end
+  | None => O
+  end.
+
+Example ex_linker_copy_sim_hypotheses :
+  exists o od h' r',
+    nth_error (sh s_lk) lk_root = Some o /\ cell_get KP (ocells o) = Some (VR lk_dict) /\
+    nth_error (sh s_lk) lk_dict = Some od /\ okind od = KDict /\ wf (sh s_lk) /\
+    NoDup (map fst (ocells o)) /\ submodels_copyable_seq K0 (sh s_lk) (ocells od) /\
+    (forall k, In k (linker_fresh_keys K0 (sh s_lk) lk_root) -> In k (map fst (ocells o))) /\
+    linker_copy_M K0 (sh s_lk) lk_root = Some (h', r').
+Proof.
+  destruct (nth_error (sh s_lk) lk_root) as [o|] eqn:Eo; [|vm_compute in Eo; discriminate].
+  destruct (nth_error (sh s_lk) lk_dict) as [od|] eqn:Ed; [|vm_compute in Ed; discriminate].
+  destruct (linker_copy_M K0 (sh s_lk) lk_root) as [[h' r']|] eqn:C; [|vm_compute in C; discriminate].
+  exists o, od, h', r'.
+  assert (Oo : o = match nth_error (sh s_lk) lk_root with Some x => x | None => o end) by (rewrite Eo; reflexivity).
+  assert (Od : od = match nth_error (sh s_lk) lk_dict with Some x => x | None => od end) by (rewrite Ed; reflexivity).
+  split; [reflexivity|].
+  split; [rewrite Oo; vm_compute; reflexivity|].
+  split; [reflexivity|].
+  split; [rewrite Od; vm_compute; reflexivity|].
+  split; [apply wfb_sound; vm_compute; reflexivity|].
+  split; [apply nodupb_sound; rewrite Oo; vm_compute; reflexivity|].
+  split; [apply submodels_copyable_seqb_sound; rewrite Od; vm_compute; reflexivity|].
+  split; [apply subsetb_sound; rewrite Oo; vm_compute; reflexivity | reflexivity].
+Qed.
